@@ -25,7 +25,7 @@ static bool segHitsBox(double ax, double ay, double bx, double by, BoundingBox b
     return true;
 }
 struct Cfg { int start; int sizes; bool aca, nearAlign; int aspect; int heap; int optset = 0; };   // optset: non-default HolaOpts (1 tree growth EAST + non-convex trees, 2 tree placement preferences off, 3 expansion/hub options flipped, 4 padding 0.5 + no ULC-at-origin + other tree routing)
-static string cfg_str(const Cfg &c) { return mcx::fmt("start=%s sizes=%s useACAforLinks=%d do_near_align=%d aspect=%d heap=%d", c.start == 0 ? "circle" : c.start == 1 ? "coincident" : "line", c.sizes == 0 ? "30x30" : c.sizes == 1 ? "mixed" : c.sizes == 2 ? "nodes1,2=300x20" : "nodes1,2=20x300", c.aca, c.nearAlign, c.aspect, c.heap) + (c.optset ? mcx::fmt(" optset=%d", c.optset) : std::string()); }
+static string cfg_str(const Cfg &c) { return mcx::fmt("start=%s sizes=%s useACAforLinks=%d do_near_align=%d aspect=%d heap=%d", c.start == 0 ? "circle" : c.start == 1 ? "coincident" : "line", c.sizes == 0 ? "30x30" : c.sizes == 1 ? "mixed" : c.sizes == 2 ? "nodes1,2=300x20" : c.sizes == 3 ? "nodes1,2=20x300" : c.sizes == 4 ? "all 10x10" : "node0=10x10", c.aca, c.nearAlign, c.aspect, c.heap) + (c.optset ? mcx::fmt(" optset=%d", c.optset) : std::string()); }
 static string gstr(int n, const EL &es) { string s = mcx::fmt("n=%d edges:", n); for (auto &e : es) s += mcx::fmt(" %d-%d", e.first, e.second); return s; }
 
 static const vector<array<double, 4>> *g_witness = nullptr;   // a witness input with its own node positions and sizes (x, y, w, h), see phase_witnesses()
@@ -38,6 +38,8 @@ static void run_one(int n, const EL &es, const Cfg &c) {
         double w = 30, h = 30; if (c.sizes == 1) { w = (i % 2) ? 60 : 30; h = (i % 3 == 0) ? 20 : 40; }
         if (c.sizes == 2 && (i == 1 || i == 2)) { w = 300; h = 20; }   // two nodes far wider than the ideal edge length (twice the average node dimension)
         if (c.sizes == 3 && (i == 1 || i == 2)) { w = 20; h = 300; }   // ... far taller
+        if (c.sizes == 4) { w = 10; h = 10; }   // every node small: many connectors per side compete for the side's length
+        if (c.sizes == 5 && i == 0) { w = 10; h = 10; }   // a small hub among ordinary nodes
         dims.push_back({w, h}); t << i << " " << x << " " << y << " " << w << " " << h << "\n";
     }
     t << "#\n"; for (auto &e : es) t << e.first << " " << e.second << "\n"; string s = t.str();
@@ -168,6 +170,16 @@ static void phase_cycle_leaf_distributions(int n0, int tmax, const vector<Cfg> &
 }
 // witness inputs: concrete graphs with irregular positions and sizes on which a failure was once found (by a seeding sub-agent's random search), kept as fixed members of
 // the alphabet.  #1: a hexagon with five hanging nodes (three of them on one cycle node, one of these with a child of its own).
+// Crowded hubs: wheels W_k (hub 0, rim 1..k) and fans (the rim a path), k up to kmax, the spokes written hub -> rim or rim -> hub (which end of an edge is its SOURCE
+// decides which block of the end-segment nudging code handles the hub side), ordinary / all-small / small-hub sizes: far more connectors arrive on one side of the hub
+// than fit at the routing nudging distance.
+static void phase_wheels(int kmax, const vector<Cfg> &cfgs) {
+    ctx.phase(mcx::fmt("wheels and fans with 4..%d rim nodes, spokes written hub->rim or rim->hub x %zu configurations", kmax, cfgs.size()));
+    for (int k = 4; k <= kmax; k++) for (int fan = 0; fan < 2; fan++) for (int hubIsTarget = 0; hubIsTarget < 2; hubIsTarget++) {
+        EL es; for (int i = 1; i <= k; i++) es.push_back(hubIsTarget ? make_pair(i, 0) : make_pair(0, i)); for (int i = 1; i < k; i++) es.push_back({i, i + 1}); if (!fan) es.push_back({k, 1});
+        if (ctx.stopped()) return; if (!ctx.next()) continue; ctx.count("states"); ctx.count("nontrivial"); ctx.sample(gstr(k + 1, es), 1);
+        for (auto &c : cfgs) run_one(k + 1, es, c); ctx.done_case(); }
+}
 static void phase_witnesses() {
     static const vector<array<double, 4>> W1 = {{75.779040013701604, 345.31781681531078, 36.153307712120863, 46.291007522972365}, {253.67156438410757, 565.43341048914249, 35.635319646623088, 26.813585612622759},
         {234.56128158189125, 320.02207809419747, 31.944287275453291, 34.668040981754949}, {503.31992475106443, 24.132436757921788, 59.180455503608556, 25.198936487010716}, {14.892883140243921, 260.31234584668442, 57.400096923182623, 42.498261191057729},
@@ -191,6 +203,7 @@ int main(int argc, char **argv) {
       { vector<Cfg> co; for (int o = 1; o <= 4; o++) { Cfg c{0, 0, true, true, 0, 0}; c.optset = o; co.push_back(c); Cfg d{0, 1, false, true, 1, 0}; d.optset = o; if (T) co.push_back(d); } phase_core_trees(T ? 4 : 3, co); phase(4, co, "non-default option sets"); if (T) phase(5, co, "non-default option sets"); }
       vector<Cfg> c2 = {{0, 0, true, true, 0, 0}, {0, 0, false, true, 0, 0}}; phase_leafless_cores(4, 2, ct); phase_leafless_cores(5, 1, c2); if (T) phase_leafless_cores(5, 2, c2); }
     phase_witnesses();
+    { vector<Cfg> wc; for (int sz : {0, 4, 5}) for (int aca = 0; aca < 2; aca++) wc.push_back({0, sz, (bool)aca, true, 2, 0}); phase_wheels(T ? 20 : 16, wc); }
     { vector<Cfg> cp; for (int aca = 0; aca < 2; aca++) for (int na = 0; na < 2; na++) cp.push_back({0, 0, (bool)aca, (bool)na, 0, 0}); phase_cycle_pendants(4, cp); phase_cycle_pendants(5, cp); phase_cycle_pendants(6, cp); phase_cycle_pendants(7, cp); phase_cycle_leaf_distributions(4, 4, cp); phase_cycle_leaf_distributions(6, 5, cp); phase_cycle_leaf_distributions(5, 5, cp); if (T) { phase_cycle_pendants(8, cp); phase_cycle_leaf_distributions(6, 6, cp); phase_cycle_leaf_distributions(7, 5, cp); vector<Cfg> cm; for (int aca = 0; aca < 2; aca++) cm.push_back({0, 1, (bool)aca, true, 2, 0}); phase_cycle_leaf_distributions(6, 5, cm); } }
     if (T) { phase(5, mid, "starts x sizes x link mode"); phase(6, {{0, 0, true, true, 0, 0}, {0, 0, false, true, 0, 0}}, "link mode, circle start"); phase(6, {{1, 1, true, true, 1, 0}, {2, 1, false, false, 2, 0}}, "coincident/line starts, mixed sizes"); }
     return ctx.finish();
